@@ -118,7 +118,8 @@ fn reset(s: TcpStream) {
 
 fn new_aircraft(k: u32) -> (u32, Vec<String>) {
     let a = 0x3C0000 + 0x101 * (k + 1);
-    (a, vec![bits::df11(a, 5, 0).hex(), bits::df4(a, bits::ac13_q1(1000 + k), 0).hex()])
+    // one line only: if the first line of a connection is lost or merged with a left-over fragment, the aircraft is missing
+    (a, vec![bits::df4(a, bits::ac13_q1(1000 + k), 0).hex()])
 }
 
 fn printed_ids(out: &str) -> Vec<String> {
@@ -153,8 +154,17 @@ pub fn check(seq: &[Fault], case_id: u64) -> Result<Outcome, String> {
     }
     let outpath = run::tmp_dir().join(format!("c18-{}-{}.out", std::process::id(), case_id));
     let outfile = std::fs::File::create(&outpath).map_err(|e| e.to_string())?;
+    let dlog = run::tmp_dir().join(format!("c18-{}-{}.dl", std::process::id(), case_id));
+    let _ = std::fs::remove_file(&dlog);
+    let mut extra: Vec<String> = Vec::new();
+    if case_id % 2 == 1 {
+        // downlink log: re-opened by the program for every connection
+        extra.push("-D".into());
+        extra.push(dlog.to_string_lossy().to_string());
+    }
     let mut child: Child = Command::new(cli::cli_path(true))
         .args(["-t", &format!("127.0.0.1:{}", port), "--update=-1", "-i", "x", "-d", "100000"])
+        .args(&extra)
         .stdin(Stdio::null())
         .stdout(Stdio::from(outfile))
         .stderr(Stdio::null())
@@ -164,6 +174,7 @@ pub fn check(seq: &[Fault], case_id: u64) -> Result<Outcome, String> {
     let _ = child.kill();
     let _ = child.wait();
     let _ = std::fs::remove_file(&outpath);
+    let _ = std::fs::remove_file(&dlog);
     result
 }
 
@@ -221,7 +232,10 @@ fn drive(seq: &[Fault], peer: &mut Peer, child: &mut Child, outpath: &std::path:
                 k += 1;
                 conn.write_all((lines.join("\n") + "\n").as_bytes()).map_err(|e| format!("harness: write failed: {}", e))?;
                 let _ = conn.flush();
-                wait_for(outpath, &format!("{:06X}", a), Duration::from_secs(20));
+                if !wait_for(outpath, &format!("{:06X}", a), Duration::from_secs(30)) {
+                    alive(child, "while a new connection delivered a frame")?;
+                    return Err(format!("a well-formed frame sent as the first line of a new connection (step {} of {:?}) was not decoded: aircraft {:06X} never appears", i, seq, a));
+                }
                 learned.push(a);
                 if next_is_refuse { peer.close(); refused_at = Some(Instant::now()); }
                 drop(conn);
@@ -268,7 +282,7 @@ fn drive(seq: &[Fault], peer: &mut Peer, child: &mut Child, outpath: &std::path:
                 let (a, lines) = new_aircraft(k);
                 conn.write_all((lines.join("\n") + "\n").as_bytes()).map_err(|e| format!("harness: write failed: {}", e))?;
                 let _ = conn.flush();
-                let seen = wait_for(outpath, &format!("{:06X}", a), Duration::from_secs(20));
+                let seen = wait_for(outpath, &format!("{:06X}", a), Duration::from_secs(45));
                 alive(child, "after the healthy connection delivered frames")?;
                 let out = String::from_utf8_lossy(&std::fs::read(outpath).unwrap_or_default()).to_string();
                 if !seen {
